@@ -1460,3 +1460,216 @@ Proof.
   - left. exact K.
   - right. exists x. auto.
 Qed.
+
+(* ------------------------------------------------------------------ *)
+(* Theorem 3: the transfer timer.  What one input can do to (lead_transferee,
+   election_elapsed) on a leader. *)
+
+Lemma ctl_fields r r' : ctl r' = ctl r ->
+  r_state r' = r_state r /\ r_lead_transferee r' = r_lead_transferee r /\
+  r_election_elapsed r' = r_election_elapsed r /\ r_election_timeout r' = r_election_timeout r /\
+  r_term r' = r_term r /\ r_vote r' = r_vote r /\ r_id r' = r_id r /\
+  r_leader_id r' = r_leader_id r /\ r_check_quorum r' = r_check_quorum r /\
+  r_heartbeat_timeout r' = r_heartbeat_timeout r /\ r_heartbeat_elapsed r' = r_heartbeat_elapsed r /\
+  conf_of r' = conf_of r.
+Proof. unfold ctl. intros H. inversion H. repeat split; assumption. Qed.
+
+Lemma ctl_cfg r r' : ctl r' = ctl r -> cfg r' = cfg r.
+Proof. unfold ctl, cfg. intros H. inversion H. congruence. Qed.
+
+Lemma ctl_leader r r' : ctl r' = ctl r -> is_leader r' = is_leader r.
+Proof. intros H. apply ctl_fields in H. destruct H as (A & _). unfold is_leader. rewrite A. reflexivity. Qed.
+
+(* the timer is untouched: same target, same elapsed, still leader *)
+Definition timer_same (r r' : raft) : Prop :=
+  is_leader r' = true /\ r_lead_transferee r' = r_lead_transferee r /\
+  r_election_elapsed r' = r_election_elapsed r.
+
+(* a NEW transfer was started by this message: different target, elapsed back to 0 *)
+Definition timer_restarted (r : raft) (m : msg) (r' : raft) : Prop :=
+  is_leader r' = true /\ m_type m = MsgTransferLeader /\
+  r_lead_transferee r' = Some (m_from m) /\ r_lead_transferee r <> Some (m_from m) /\
+  r_election_elapsed r' = 0.
+
+(* the leader granted a same-term MsgRequestVote: only possible when its recorded vote
+   is the sender (or it has neither vote nor leader) -- never for a well-formed leader,
+   which has voted for itself, and a sender other than itself *)
+Definition timer_vote_reset (r : raft) (m : msg) (r' : raft) : Prop :=
+  is_leader r' = true /\ m_type m = MsgRequestVote /\ vote_granted r m = true /\
+  r_lead_transferee r' = r_lead_transferee r /\ r_election_elapsed r' = 0.
+
+Lemma cf_timer_same r r' : is_leader r = true -> cf MsgTimeoutNow r r' -> timer_same r r'.
+Proof.
+  intros Hl [_ H]. pose proof (ctl_leader _ _ H) as A. apply ctl_fields in H.
+  destruct H as (_ & B & C0 & _). unfold timer_same. rewrite A. auto.
+Qed.
+
+Lemma wf_cfg ty r r' : wf ty r r' -> cfg r' = cfg r.
+Proof. intros (_ & A & _). exact A. Qed.
+
+Lemma wf_lt_none ty r r' : wf ty r r' -> r_lead_transferee r = None -> r_lead_transferee r' = None.
+Proof.
+  intros (_ & _ & A) H. destruct (r_lead_transferee r') as [t|] eqn:E; [|reflexivity].
+  specialize (A t eq_refl). congruence.
+Qed.
+
+Theorem transfer_timer_step r m r' c :
+  is_leader r = true -> step r m = Ok (r', c) ->
+  cfg r' = cfg r /\
+  (r_lead_transferee r' = None \/ timer_same r r' \/ timer_restarted r m r' \/
+   timer_vote_reset r m r').
+Proof.
+  intros Hl H. rewrite step_eq in H. inv_bind H.
+  apply step_pre_shape in Hx. destruct Hx as [->|[(r1 & c1 & -> & A)|(Hlt & r0 & l & -> & A)]].
+  - apply step_main_shape in H. destruct H as [H|r1 H1 H2 H3 ->|H1 H2|H1 H2].
+    + split; [apply ctl_cfg; apply H|]. right; left. apply cf_timer_same; assumption.
+    + pose proof (cf_timer_same _ _ Hl H3) as (A & B & C0).
+      split; [destruct H3 as [_ K]; apply ctl_cfg in K; exact K|].
+      right; right; right. unfold timer_vote_reset. repeat split; auto.
+    + destruct H2 as [H|H2 H3 H4 H5 H6|x H2 H3 H4 H5 H6 H7|o H2 H3 H4 H5 ->|H2 H3].
+      * split; [apply ctl_cfg; apply H|]. right; left. apply cf_timer_same; assumption.
+      * split; [eapply wf_cfg; exact H3|]. left. exact H4.
+      * split; [apply ctl_cfg; exact H3|]. right; left.
+        pose proof (ctl_leader _ _ H3) as A. apply ctl_fields in H3.
+        destruct H3 as (_ & B & C0 & _). unfold timer_same. rewrite A. auto.
+      * split; [reflexivity|]. left. reflexivity.
+      * pose proof H3 as (Hself & Hne & _). apply tl_started_facts in H3. destruct H3 as [A _].
+        split; [apply ctl_cfg in A; exact A|]. right; right; left.
+        pose proof (ctl_leader _ _ A) as B. apply ctl_fields in A.
+        destruct A as (_ & A1 & A2 & _). unfold timer_restarted. rewrite B. repeat split; auto.
+    + apply is_leader_state in Hl. congruence.
+  - inversion H; subst. split; [apply ctl_cfg; apply A|]. right; left. apply cf_timer_same; assumption.
+  - apply step_main_shape in H.
+    pose proof (become_follower_clears _ _ _ _ A) as (Hn & _ & Hf).
+    apply become_follower_tn in A.
+    assert (Hw : wf MsgTimeoutNow r0 r').
+    { destruct H as [H|r1 H1 H2 H3 ->|H1 H2|H1 H2].
+      - apply cf_wf. exact H.
+      - apply cf_wf in H3. wft_chain.
+      - congruence.
+      - exact H2. }
+    split; [rewrite (wf_cfg _ _ _ Hw); eapply wf_cfg; exact A|].
+    left. eapply wf_lt_none; eassumption.
+Qed.
+
+(* a leader that has voted for itself never takes the vote-reset branch for a request
+   from another node *)
+Lemma no_vote_reset r m r' :
+  r_vote r = r_id r -> r_id r <> 0 -> m_from m <> r_id r -> ~ timer_vote_reset r m r'.
+Proof.
+  intros Hv Hid Hfrom (_ & Hty & Hg & _). unfold vote_granted in Hg. rewrite Hty, Hv in Hg.
+  change (MsgRequestVote =? MsgRequestPreVote) with false in Hg. cbn [andb orb] in Hg.
+  rewrite orb_false_r in Hg. apply orb_prop in Hg. destruct Hg as [Hg|Hg].
+  - apply N.eqb_eq in Hg. congruence.
+  - apply andb_prop in Hg. destruct Hg as [Hg _]. apply N.eqb_eq in Hg.
+    unfold INVALID_ID in Hg. congruence.
+Qed.
+
+Lemma step_local_leader r m r' c :
+  r_state r = Leader -> m_term m = 0 ->
+  (m_type m = MsgCheckQuorum \/ m_type m = MsgBeat) ->
+  step r m = Ok (r', c) -> sl_out r m r'.
+Proof.
+  intros Hs Ht Hty H. rewrite step_main_same_term in H by (left; exact Ht).
+  unfold step_main in H. rewrite Hs in H.
+  destruct Hty as [E|E]; rewrite E in H; cbn [orb] in H;
+    [change (MsgCheckQuorum =? MsgHup) with false in H;
+     change (MsgCheckQuorum =? MsgRequestVote) with false in H;
+     change (MsgCheckQuorum =? MsgRequestPreVote) with false in H
+    |change (MsgBeat =? MsgHup) with false in H;
+     change (MsgBeat =? MsgRequestVote) with false in H;
+     change (MsgBeat =? MsgRequestPreVote) with false in H];
+    cbn [orb] in H; eapply step_leader_shape; exact H.
+Qed.
+
+Lemma sl_out_beat r m r' : m_type m = MsgBeat -> sl_out r m r' -> cf MsgTimeoutNow r r'.
+Proof.
+  intros Hty [H|H1 _ _ _ _|x H1 _ _ _ _ _|o H1 _ _ _ _|H1 _]; try exact H;
+    rewrite Hty in H1; discriminate.
+Qed.
+
+(* the heartbeat half of tick_heartbeat never touches the timer *)
+Lemma tick_heartbeat_tail r1 hr r' b :
+  is_leader r1 = true ->
+  (if r_heartbeat_timeout r1 <=? r_heartbeat_elapsed r1 then
+     z <- step (r1 <| r_heartbeat_elapsed := 0 |>)
+               (new_message INVALID_ID MsgBeat (Some (r_id (r1 <| r_heartbeat_elapsed := 0 |>)))) ;;
+     Ok (fst z, true)
+   else Ok (r1, hr)) = Ok (r', b) ->
+  cfg r' = cfg r1 /\ is_leader r' = true /\ r_lead_transferee r' = r_lead_transferee r1 /\
+  r_election_elapsed r' = r_election_elapsed r1.
+Proof.
+  intros Hl H. destruct (r_heartbeat_timeout r1 <=? r_heartbeat_elapsed r1).
+  - inv_bind H. inversion H; subst; clear H. destruct x as [r2 c]. cbn [fst].
+    apply step_local_leader in Hx; [|apply is_leader_state; exact Hl|reflexivity|right; reflexivity].
+    apply sl_out_beat in Hx; [|reflexivity]. destruct Hx as [_ K].
+    pose proof (ctl_leader _ _ K) as A. pose proof (ctl_cfg _ _ K) as B.
+    apply ctl_fields in K. destruct K as (_ & K1 & K2 & _).
+    repeat split; [exact B|rewrite A; exact Hl|exact K1|exact K2].
+  - inversion H; subst. auto.
+Qed.
+
+Theorem transfer_timer_tick r r' b :
+  is_leader r = true -> tick r = Ok (r', b) ->
+  cfg r' = cfg r /\
+  (r_lead_transferee r' = None \/
+   (is_leader r' = true /\ r_lead_transferee r' = r_lead_transferee r /\
+    r_election_elapsed r' = r_election_elapsed r + 1 /\
+    r_election_elapsed r' < r_election_timeout r')).
+Proof.
+  intros Hl H. unfold tick in H. rewrite (is_leader_state _ Hl) in H.
+  unfold tick_heartbeat in H.
+  set (r1 := r <| r_heartbeat_elapsed := r_heartbeat_elapsed r + 1 |>
+               <| r_election_elapsed := r_election_elapsed r + 1 |>) in *.
+  assert (Hl1 : is_leader r1 = true) by exact Hl.
+  change (r_election_timeout r1) with (r_election_timeout r) in H.
+  change (r_election_elapsed r1) with (r_election_elapsed r + 1) in H.
+  inv_bind H. destruct x as [ra has_ready].
+  destruct (r_election_timeout r <=? r_election_elapsed r + 1) eqn:Eexp.
+  - (* the election timeout has elapsed: the transfer is abandoned *)
+    inv_bind Hx. destruct x as [r3 hr]. inversion Hx; subst; clear Hx.
+    set (r2 := r1 <| r_election_elapsed := 0 |>) in *.
+    assert (H3 : cfg r3 = cfg r /\
+                 (is_leader r3 = true \/ (is_leader r3 = false /\ r_lead_transferee r3 = None))).
+    { change (r_check_quorum r2) with (r_check_quorum r) in Hx0.
+      destruct (r_check_quorum r).
+      - inv_bind Hx0. inversion Hx0; subst; clear Hx0. destruct x as [rz cz]. cbn [fst].
+        apply step_local_leader in Hx; [|apply is_leader_state; exact Hl|reflexivity|left; reflexivity].
+        destruct Hx as [K|K1 K2 K3 K4 K5|x K1 _ _ _ _ _|o K1 _ _ _ _|K1 _];
+          try (cbn in K1; discriminate K1).
+        + destruct K as [_ K]. split; [apply ctl_cfg in K; exact K|]. left.
+          rewrite (ctl_leader _ _ K). exact Hl.
+        + split; [apply (wf_cfg _ _ _ K2)|]. right. split; [|exact K3].
+          unfold is_leader. rewrite K4. reflexivity.
+      - inversion Hx0; subst. split; [reflexivity|]. left. exact Hl. }
+    destruct H3 as [Hc3 H3].
+    set (r4 := if is_leader r3 && match r_lead_transferee r3 with Some _ => true | None => false end
+               then r3 <| r_lead_transferee := None |> else r3) in *.
+    assert (H4 : cfg r4 = cfg r /\ r_lead_transferee r4 = None /\ is_leader r4 = is_leader r3).
+    { subst r4. destruct H3 as [K|[K1 K2]].
+      - rewrite K. cbn [andb]. destruct (r_lead_transferee r3) eqn:E; auto.
+      - rewrite K1. cbn [andb]. auto. }
+    destruct H4 as (Hc4 & Hn4 & Hl4).
+    destruct (is_leader r4) eqn:El4; cbn [negb] in H.
+    + apply tick_heartbeat_tail in H; [|exact El4]. destruct H as (A & _ & B & _).
+      split; [congruence|]. left. congruence.
+    + inversion H; subst. split; [exact Hc4|]. left. exact Hn4.
+  - inversion Hx; subst; clear Hx. rewrite Hl1 in H. cbn [negb] in H.
+    apply tick_heartbeat_tail in H; [|exact Hl1]. destruct H as (A & B & C0 & D).
+    split; [exact A|]. right. split; [exact B|]. split; [exact C0|]. split; [exact D|].
+    apply N.leb_gt in Eexp. rewrite D.
+    assert (E : r_election_timeout r' = r_election_timeout r).
+    { unfold cfg in A. inversion A. reflexivity. }
+    rewrite E. exact Eexp.
+Qed.
+
+Theorem transfer_expires r r' b :
+  is_leader r = true -> r_election_timeout r <= r_election_elapsed r + 1 ->
+  tick r = Ok (r', b) -> r_lead_transferee r' = None.
+Proof.
+  intros Hl Hexp H. apply transfer_timer_tick in H; [|exact Hl].
+  destruct H as (A & [H|(_ & _ & B & C0)]); [exact H|].
+  assert (E : r_election_timeout r' = r_election_timeout r).
+  { unfold cfg in A. inversion A. reflexivity. }
+  lia.
+Qed.
